@@ -25,6 +25,7 @@ TRUSTED = [
     'measures used for compute_rotated are models of C08/C09 (calc_peak, trapezoid velocity, Arias, CAV) or trivial callables (sum, first value)',
     'exact arithmetic; rounding measured against the stated tolerances; index-valued outputs (lags) only in the exact domain',
     'time_indices uses int(end/dt): compared only where the float quotient is not within 1e-9 of an integer unless exact (fragile cases counted)',
+    'source tie: the readings of Python / NumPy primitives in translator/py2coq_c18.py + coq/lib/PySeq.v (slices, items, range, np.radians, np.linspace, np.mod, int(), np.mean, sum), signal = (values, dt) with npts = len(values); the outer signal loop is read by the model (mapi), its header / return are shape-checked',
     'Python harness',
 ]
 ARIAS_C = np.pi / (2 * 9.81)
@@ -617,11 +618,25 @@ def ss_cases(rep, rng, tier, cases):
     return fragile
 
 
+def regen_c18():
+    """re-translate combine_at_angle / compute_rotated / Cluster.time_match / Cluster.same_start (eqsig/multiple.py),
+    time_indices (eqsig/fns/time_shift.py) and get_section_average (eqsig/fns/average.py) into coq/gen/Gen_c18.v (fail
+    closed): the `C18_*_is_source` theorems of Prop_C18 are then re-proved against the code that is in the repo now"""
+    import sys
+    try:
+        sys.path.insert(0, os.path.join(core.VERIF, 'translator'))
+        import py2coq_c18
+        py2coq_c18.regenerate(repo=core.REPO)
+    except Exception as e:
+        return 'py2coq_c18: %s: %s' % (type(e).__name__, e)
+    return None
+
+
 def run(rep, rng, tier):
     import time
     _REPORTED.clear()
     t0 = time.time()
-    rep.prove('Prop_C18', targets=['props/Prop_C18.vo', 'model/K_C18.vo'])
+    rep.prove('Prop_C18', targets=['props/Prop_C18.vo', 'model/K_C18.vo'], gen_failed=regen_c18())
     t1 = time.time()
     cases, goals = [], []
     rotation_cases(rep, rng, tier, cases, goals)
